@@ -751,8 +751,33 @@ func (r *run) bulk(cnt int) error {
 	last, err := r.helperRun(cnt)
 	if err == nil {
 		r.rec.Log("Bulk", "last", last, "cnt", cnt)
+	} else if last >= 0 {
+		r.rec.Log("Bulk", "last", last, "cnt", cnt)
+		r.plainExchange(9)
 	}
 	return err
+}
+
+// plainExchange: one recorded exchange of caller c, reply handed over after the Write returned.
+// Used after an unrecorded helper exchange failed, so that the failure is judged by the trace spec.
+func (r *run) plainExchange(c int) {
+	if r.conn.Wait(simnet.IsKind(simnet.OpRead), stepWait) == nil {
+		return
+	}
+	if r.doReserve(c) != "ok" {
+		return
+	}
+	r.doStart(c)
+	if !r.releaseWrite(c, true) {
+		return
+	}
+	time.Sleep(2 * time.Millisecond)
+	if !r.deliverReply(c, r.caller(c).g, 0) {
+		return
+	}
+	if !r.collect(c, r.grace) {
+		r.rec.Log("Stuck", "c", c)
+	}
 }
 
 // ---------------------------------------------------------------------------
@@ -891,8 +916,14 @@ func runScript(idx int, sc *Script, seed int64) (res Result) {
 		r.rec.SetOff(true)
 		r.hold.Store(false)
 		r.dc = transport.NewDnsConn(opts, r.conn)
-		if _, err := r.helperRun(sc.Qid0); err != nil {
+		if last, err := r.helperRun(sc.Qid0); err != nil {
+			// a plain exchange failed: show it to the trace spec with one recorded exchange at the same counter position
 			res.Why = "warmup: " + err.Error()
+			if last >= 0 {
+				r.rec.Log("reset", "maxCq", sc.MaxCq, "dgram", sc.Dgram, "qid0", (last+1)%65536, "rd", "read")
+				r.plainExchange(9)
+			}
+			res.Events = r.rec.Events()
 			r.cleanup()
 			return
 		}
